@@ -49,6 +49,15 @@ def make_project(rng, i):
     files[".thailint.yaml"] = ("magic-numbers:\n  allowed_numbers: [0, 1]\n  max_small_integer: 3\n  typescript:\n    allowed_numbers: [0, 1, 2, 37, 4217, 7331]\n  rust:\n    max_small_integer: 20\n"
                                "nesting:\n  max_nesting_depth: 3\n  python:\n    max_nesting_depth: 5\n  rust:\n    max_nesting_depth: 2\n"
                                "srp:\n  max_methods: 2\n  typescript:\n    max_methods: 9\n    max_loc: 500\n") + "dry:\n  enabled: true\n  min_duplicate_lines: 3\nfile-placement:\n  global_deny:\n    - pattern: \".*third.*\\\\.py$\"\n      reason: \"no third\"\n"
+    # ignore patterns of every form, including ones that spell a directory's own path: whatever they mean, they must mean the same
+    # for a directory run and for the same files named one by one
+    files["tools/gen_out/made%d.py" % i] = "def made%d(a):\n    print(a)\n    return a * %d\n" % (i, rng.randint(1001, 9999))
+    files["vendor/shim%d.py" % i] = "def shim%d(a):\n    print(a)\n    return a * %d\n" % (i, rng.randint(1001, 9999))
+    pats = rng.sample(["vendor", "tools/gen_out", "vendor/", "tools/gen_out/*", "*.rs", "lib", "src/inner/deep", "**/deep/**", "shim%d.py" % i], rng.randint(1, 4))
+    if rng.random() < 0.5:
+        files[".thailintignore"] = "\n".join(pats) + "\n"
+    else:
+        files[".thailint.yaml"] += "ignore:\n" + "".join("  - \"%s\"\n" % p_ for p_ in pats)
     return files
 
 
